@@ -42,6 +42,8 @@ def buffer_for(ident, rnd, pattern="random", n=1400):
         # sparse masks so that the message fits: sat mask bits 73..136, sig mask 137..168
         bits = list("".join(format(b, "08b") for b in buf))
         nsat, nsig = rnd.randrange(0, 7), rnd.randrange(0, 5)
+        if rnd.random() < 0.15:  # cell masks wider than 64 bits
+            nsat, nsig = rnd.randrange(9, 15), rnd.randrange(5, 8)
         sat = set(rnd.sample(range(64), nsat)) | ({63} if rnd.random() < 0.3 else set())
         sig = set(rnd.sample(range(32), nsig)) | ({0} if rnd.random() < 0.3 else set())
         for k in range(64):
